@@ -39,8 +39,7 @@ func init() {
 		flamego.SetEnv(flamego.EnvTypeProd)
 		if dir, err := os.MkdirTemp("", "verif-c05-"); err == nil {
 			defer os.RemoveAll(dir)
-			_ = os.WriteFile(filepath.Join(dir, "hello.txt"), []byte("static file content, the same for everybody"), 0o644)
-			c05Dir = dir
+			c05Fixture(dir)
 		}
 		st := &c05Stats{}
 		n := c.Repeat
@@ -75,10 +74,18 @@ type c05Req struct {
 	Path   string
 }
 
-var c05Kinds = []string{"static", "optional-short", "optional-long", "placeholder", "regex", "matchall-capture", "final-matchall", "header", "any", "panic", "notfound", "render-json", "render-xml", "render-text", "query-cookie", "static-file", "grouped"}
+var c05Kinds = []string{"static", "optional-short", "optional-long", "placeholder", "regex", "matchall-capture", "final-matchall", "header", "any", "panic", "notfound", "render-json", "render-xml", "render-text", "query-cookie", "static-file", "static-file-2", "grouped"}
 
 // c05Dir holds the file served by the Static middleware of the shared instance.
 var c05Dir string
+
+// c05Fixture: two files with the same base name (different size) under one Static instance.
+func c05Fixture(dir string) {
+	_ = os.WriteFile(filepath.Join(dir, "hello.txt"), []byte("static file content, the same for everybody"), 0o644)
+	_ = os.MkdirAll(filepath.Join(dir, "sub"), 0o755)
+	_ = os.WriteFile(filepath.Join(dir, "sub", "hello.txt"), []byte("another file that merely has the same name"), 0o644)
+	c05Dir = dir
+}
 
 func c05MakeReq(kind, tok string, rng *rand.Rand) c05Req {
 	r := c05Req{Kind: kind, Tok: tok, Method: "GET"}
@@ -116,6 +123,8 @@ func c05MakeReq(kind, tok string, rng *rand.Rand) c05Req {
 		r.Path = "/qc/" + tok
 	case "static-file":
 		r.Path = "/assets/hello.txt"
+	case "static-file-2":
+		r.Path = "/assets/sub/hello.txt"
 	case "grouped":
 		r.Path = "/g1/" + tok + "/g2/leaf"
 	}
@@ -192,6 +201,9 @@ func buildC05(s *c05Sched) *flamego.Flame {
 	})
 	echo := func(kind string) []flamego.Handler {
 		pass := func(c flamego.Context) { // fast path, onion
+			// the parameter map belongs to this request: a note left in it by an earlier handler is what a later
+			// handler of the same request reads, and nobody else's
+			c.Params()["scratch"] = "s" + c.Request().Header.Get("X-Tok")
 			s.perturb(c.Request().Header.Get("X-Tok"), 1)
 			c.Next()
 		}
@@ -203,8 +215,8 @@ func buildC05(s *c05Sched) *flamego.Flame {
 			if len(v.Tok)%2 == 0 || strings.HasSuffix(v.Tok, "1") || strings.HasSuffix(v.Tok, "a") {
 				url2 = c.URLPath("opt", "withOptional", "true")
 			}
-			out := fmt.Sprintf("kind=%s;tok=%s;hdr=%s;inj=%s;route=%s;url=%s;n=%s;rest=%s;body=%s;method=%s;svc=%s;url2=%s;opt=%s",
-				kind, p["tok"], req.Header.Get("X-Tok"), v.Tok, c.Param("route"), c.URLPath("user", "tok", v.Tok), p["n"], p["rest"], body, req.Method, nm.Name(), url2, opt.V)
+			out := fmt.Sprintf("kind=%s;tok=%s;hdr=%s;inj=%s;route=%s;url=%s;n=%s;rest=%s;body=%s;method=%s;svc=%s;url2=%s;opt=%s;scratch=%s;np=%d",
+				kind, p["tok"], req.Header.Get("X-Tok"), v.Tok, c.Param("route"), c.URLPath("user", "tok", v.Tok), p["n"], p["rest"], body, req.Method, nm.Name(), url2, opt.V, strings.TrimPrefix(p["scratch"], "s"), len(p))
 			s.perturb(v.Tok, 2)
 			_, _ = w.Write([]byte(out))
 		}
@@ -265,7 +277,7 @@ func c05Serve(f *flamego.Flame, rq c05Req) c05Resp {
 		defer func() { out.pan = recover() }()
 		f.ServeHTTP(spy, req)
 	}()
-	out.status, out.body, out.ctype = spy.status, string(spy.body), spy.h.Get("Content-Type")+"|tag="+strings.Join(spy.h.Values("X-Req-Tag"), ",")
+	out.status, out.body, out.ctype = spy.status, string(spy.body), spy.h.Get("Content-Type")+"|tag="+strings.Join(spy.h.Values("X-Req-Tag"), ",")+"|etag="+spy.h.Get("ETag")
 	return out
 }
 
@@ -323,6 +335,18 @@ func runC05Round(w *core.W, c *c05Round, st *c05Stats, salt uint64) bool {
 		}
 		if f := c05Foreign(want[i].body, rq.Tok); f != "" {
 			w.Violate("serial-twin", c, fmt.Sprintf("serial twin: %s %s echoes a foreign token %q: %q", rq.Method, rq.Path, f, want[i].body))
+			return false
+		}
+	}
+	// "served alone" in the strict sense, for the cold wave and a sample of the rest: a fresh instance per request
+	for i, rq := range reqs {
+		if i >= c.Goroutines && i%32 != 0 {
+			continue
+		}
+		alone := c05Serve(buildC05(&c05Sched{}), rq)
+		w.Count("compared-with-a-fresh-instance")
+		if alone.status != want[i].status || alone.body != want[i].body || alone.ctype != want[i].ctype {
+			w.Violate("isolation", c, fmt.Sprintf("%s %s: the response on an instance that has served other requests before (serially) differs from the response of the same request served alone on a fresh instance\n after others: %d %q %q\n alone:        %d %q %q", rq.Method, rq.Path, want[i].status, want[i].body, want[i].ctype, alone.status, alone.body, alone.ctype))
 			return false
 		}
 	}
@@ -457,7 +481,7 @@ func raceDedupKey(blk string) string {
 }
 
 func runC05(r *core.Run) {
-	r.Rule("per round one COLD instance (lazy caches unfilled) with routes of every kind (static shortcut, optional static short/long, placeholder, multi-bind regex, match-all with capture, final match-all, header-constrained, Any, named route used for URL building, JSON rendering, a panicking route behind Recovery, custom not-found chain) and Logger+Recovery+Renderer middleware; 32-64 goroutines behind a barrier, the first wave hits every route kind while cold, then few hot routes; every request carries a unique token in a path parameter, a header and the body; an early middleware maps a request-scoped value; handlers reached through Next (fast path) and reflectively echo parameters, `route`, the injected value, a built URL and the body, with seeded yields / sleeps / pairwise rendezvous between reading and writing. Oracles: (1) Go race detector, report blocks with a framework frame counted from the log; (2) byte-for-byte equality with an identically built instance that served the same requests serially; (3) no foreign token in any response. non-trivial = distinct concurrent rounds")
+	r.Rule("per round one COLD instance (lazy caches unfilled) with routes of every kind (static shortcut, optional static short/long, placeholder, multi-bind regex, match-all with capture, final match-all, header-constrained, Any, named route used for URL building, JSON rendering, a panicking route behind Recovery, custom not-found chain) and Logger+Recovery+Renderer middleware; 32-64 goroutines behind a barrier, the first wave hits every route kind while cold, then few hot routes; every request carries a unique token in a path parameter, a header and the body; an early middleware maps a request-scoped value; handlers reached through Next (fast path) and reflectively echo parameters, `route`, the injected value, a built URL and the body, with seeded yields / sleeps / pairwise rendezvous between reading and writing. Oracles: (1) Go race detector, report blocks with a framework frame counted from the log; (2) byte-for-byte equality (status, body, Content-Type, ETag, response tags) with an identically built instance that served the same requests serially, which in turn equals - for the cold wave and every 32nd request - a fresh instance that serves nothing else; (3) no foreign token in any response. non-trivial = distinct concurrent rounds")
 	r.Assume("happens-before race detection is timing independent for accesses that occur; the shadow history is bounded (4 accesses per word)")
 	r.Race = raceEnabled
 	if !raceEnabled {
@@ -476,8 +500,7 @@ func runC05(r *core.Run) {
 		return
 	}
 	defer os.RemoveAll(dir)
-	_ = os.WriteFile(filepath.Join(dir, "hello.txt"), []byte("static file content, the same for everybody"), 0o644)
-	c05Dir = dir
+	c05Fixture(dir)
 	orig := flamego.Env()
 	flamego.SetEnv(flamego.EnvTypeProd)
 	defer flamego.SetEnv(orig)
